@@ -27,7 +27,7 @@ RefInit(e) ==
    done |-> FALSE, signalled |-> FALSE, tSig |-> 0, tLastIn |-> 0, tFirstByte |-> -1, tShut |-> -1, tIdle |-> 0,
    lastEnded |-> [status |-> 0, m |-> "", total |-> 0, bodiless |-> FALSE], stalled |-> FALSE, wroteAny |-> FALSE,
    maxHeld |-> 0, tHead1 |-> -1, kaMayHaveFired |-> FALSE, anyCut |-> FALSE, doneErr |-> FALSE, tFinal |-> -1, sigTok |-> 0, t408 |-> -1, wpend |-> FALSE,
-   mem0 |-> -1, tAct |-> 0, tEof |-> -1, tAns |-> 0, closeI |-> 0, closeFed |-> -1, tCloseFed |-> -1, unlimited |-> (e.sock.budget < 0)]
+   mem0 |-> -1, tAct |-> 0, tEof |-> -1, tAns |-> 0, closeI |-> 0, closeFed |-> -1, tCloseFed |-> -1, finalIdle |-> FALSE, unlimited |-> (e.sock.budget < 0)]
 
 NReq(rs) == Len(rs.gt)
 Faulted(rs) == rs.rstFed \/ (rs.eofFed /\ ~rs.cfg.half_closed)
@@ -47,7 +47,11 @@ MayCloseAnyway(rs, q, p) == ((q.blen > 0 \/ q.chunked) /\ p.read # "all") \/ rs.
 (* are already received or queued are still served after a closing response) does not cover it.                          *)
 QuietAfterClose(rs) == /\ rs.final /\ rs.called = rs.answered /\ rs.cur.k = 0 /\ rs.called >= 1 /\ rs.called <= NReq(rs) /\ ~rs.anyCut
                        /\ rs.fed = rs.gt[rs.called].end
-ArrivedLater(rs, i) == rs.closeFed >= 0 /\ i >= 1 /\ i <= NReq(rs) /\ rs.gt[i].start >= rs.closeFed
+(* finalIdle: when the closing response ended, the request it answers was the last one dispatched, no byte of a later request  *)
+(* had been sent, and the connection had no reason to read on (its body was complete, or unread and not drainable, which means *)
+(* lingering close or shutdown at once): whatever request is dispatched after that arrived later.                              *)
+ArrivedLater(rs, i) == \/ (rs.finalIdle /\ i > rs.closeI)
+                       \/ (rs.closeFed >= 0 /\ i >= 1 /\ i <= NReq(rs) /\ rs.gt[i].start >= rs.closeFed)
 AfterFinalSig(rs, what, i) == "C03/" \o what \o "/after-final/" \o rs.finalWhy \o (IF ArrivedLater(rs, i) THEN "/arrived-later" ELSE "")
 (* ---------------------------------------------------------------------------------- *)
 OnCall(rs, e) ==
@@ -152,6 +156,12 @@ Closed(rs, cur, e) ==
   IN IF cur.closing THEN [s1 EXCEPT !.final = TRUE, !.tFinal = e.t, !.tAct = e.t, !.tAns = e.t,
                                     !.finalWhy = (IF cur.standalone THEN "error-response" ELSE "close-response"),
                                     !.closeI = cur.i,
+                                    !.finalIdle = /\ cur.i >= 1 /\ cur.i <= NReq(rs) /\ rs.called = cur.i /\ ~rs.anyCut
+                                                  \* (octets after a 304 - a recorded finding - keep the writer busy after the head)
+                                                  /\ ~(cur.status = 304 /\ rs.pf[cur.i].kind # "empty")
+                                                  /\ rs.fed <= rs.gt[cur.i].end
+                                                  \* (the handler's payload handle is gone once it has answered, unless the response body holds it: keep = "body")
+                                                  /\ (rs.fed = rs.gt[cur.i].end \/ ~(rs.gt[cur.i].chunked /\ rs.pf[cur.i].keep # "body")),
                                     !.tCloseFed = IF cur.i < 1 \/ cur.i > NReq(rs) \/ rs.fed >= rs.gt[cur.i].end THEN e.t ELSE -1]
      ELSE [s1 EXCEPT !.tAct = e.t, !.tAns = e.t]
 
@@ -298,7 +308,7 @@ RefStep0(rs, e) ==
     [] e.ev = "Resp"     -> OnResp(rs, e)
     [] e.ev = "RespEnd"  -> OnRespEnd(rs, e)
     [] e.ev = "RespCut"  -> [OnRespCut(rs, e) EXCEPT !.anyCut = TRUE]
-    [] e.ev = "Junk"     -> E({"C02"}, FALSE, [rs EXCEPT !.anyCut = TRUE], JunkSig(rs))
+    [] e.ev = "Junk"     -> E({"C02"}, FALSE, [rs EXCEPT !.anyCut = TRUE, !.finalIdle = FALSE, !.closeFed = -1], JunkSig(rs))
     [] e.ev = "Stall"    -> E({"C04"}, FALSE, rs, "C04/Stall/progress-on-spurious-poll")
     [] e.ev = "Spin"     -> rs      \* busy self-wake loop while blocked: reported in the evidence, not a clause of C01-C06
     [] e.ev = "Panic"    -> Rej("C19/Panic", "")
